@@ -209,6 +209,7 @@ pub fn f_scl(size: i64) -> String {
 // plan
 
 struct Job {
+    roundtrip: bool,
     method: usize,
     dims: Vec<Vec<i64>>,
     sets: Vec<HashSet<i64>>,
@@ -264,6 +265,7 @@ fn read_plan(path: &str) -> (Cfg, Vec<Job>) {
             Some("job") => {
                 let name = w.next().unwrap();
                 let nd: usize = w.next().unwrap().parse().unwrap();
+                let rt = match w.next() { Some(x) => x == "1", None => cfg.roundtrip };
                 let mi = *names.get(name).unwrap_or_else(|| die(&format!("plan names unknown method {}", name)));
                 if gentab::METHODS[mi].arity != nd {
                     die(&format!("plan arity mismatch for {}", name));
@@ -279,7 +281,7 @@ fn read_plan(path: &str) -> (Cfg, Vec<Job>) {
                 }
                 let total = dims.iter().map(|d| d.len() as u64).product();
                 let sets = dims.iter().map(|d| d.iter().cloned().collect()).collect();
-                jobs.push(Job { method: mi, dims, sets, total });
+                jobs.push(Job { roundtrip: rt, method: mi, dims, sets, total });
             }
             Some(x) => die(&format!("bad plan line {}", x)),
         }
@@ -499,6 +501,7 @@ struct MStats {
     roundtrip_ok: u64,
     roundtrip_unpredictable: u64,
     roundtrip_diff: u64,
+    dups: u64,             // tuples of a later product that an earlier product of the method already contains
     skipped: u64,          // seq kind: not constructible
     baseline: Option<u32>,
     first: Option<Example>,
@@ -596,6 +599,7 @@ fn add_stats(t: &mut MStats, s: MStats) {
     t.roundtrip_unpredictable += s.roundtrip_unpredictable;
     t.roundtrip_diff += s.roundtrip_diff;
     t.skipped += s.skipped;
+    t.dups += s.dups;
     if t.first.is_none() { t.first = s.first; }
     if t.nontrivial_ex.is_none() { t.nontrivial_ex = s.nontrivial_ex; }
     if t.roundtrip_ex.is_none() { t.roundtrip_ex = s.roundtrip_ex; }
@@ -619,6 +623,7 @@ fn process_chunk(cfg: &Cfg, jobs: &[Job], segs: &[Seg], tid: usize, shared: &Mut
     let mut bytes_all: Vec<Vec<u8>> = Vec::new();
     let mut tp = std::time::Instant::now();
     let mut seq = false;
+    let mut ndups: Vec<u64> = vec![0; gentab::METHODS.len()];
     for sg in segs {
         let job = &jobs[sg.ji];
         let m = &gentab::METHODS[job.method];
@@ -628,6 +633,7 @@ fn process_chunk(cfg: &Cfg, jobs: &[Job], segs: &[Seg], tid: usize, shared: &Mut
         for idx in sg.lo..sg.hi {
             decode_index(job, idx, &mut tmp);
             if sg.ji > 0 && in_earlier_job(jobs, sg.ji, &tmp) {
+                ndups[job.method] += 1;
                 continue;
             }
             let r = catch_unwind(AssertUnwindSafe(|| (m.call)(&tmp)));
@@ -659,6 +665,12 @@ fn process_chunk(cfg: &Cfg, jobs: &[Job], segs: &[Seg], tid: usize, shared: &Mut
     }
     let ncases = outs.len();
     tp = prof(0, tp);
+    if ndups.iter().any(|d| *d > 0) {
+        let mut sh = shared.lock().unwrap();
+        for (mi, d) in ndups.iter().enumerate() {
+            sh.stats[mi].dups += d;
+        }
+    }
     if ncases == 0 {
         return;
     }
@@ -746,7 +758,7 @@ fn process_chunk(cfg: &Cfg, jobs: &[Job], segs: &[Seg], tid: usize, shared: &Mut
             // without the full round trip only the words that are not already proven equal to llvm-mc's
             // encoding of the requested instruction need the decoder
             let equal = matches!(asm_of[i].map(|k| &asm.res[k]), Some(AsmRes::Enc(l, _, _)) if *l == w);
-            if cfg.roundtrip || !equal {
+            if jobs[cj[i]].roundtrip || !equal {
                 widx.push(i);
                 words.push(w);
             }
@@ -782,19 +794,22 @@ fn process_chunk(cfg: &Cfg, jobs: &[Job], segs: &[Seg], tid: usize, shared: &Mut
         expected: texts[i].clone(),
         llvm,
     };
-    // which operand slot is to blame: the first slot whose replacement by the first value of its domain
-    // (by convention a plain, encodable value) makes the predicate hold
+    // which operand slot is to blame: the first slot for which some other value of its domain makes the
+    // predicate hold while the other operands stay as they are
     let blame = |i: usize, good: &dyn Fn(&[i64]) -> bool| -> String {
         let o = ops(i);
         let mut t = o.to_vec();
         for k in 0..o.len() {
-            let v0 = jobs[cj[i]].dims[k][0];
-            if t[k] == v0 {
-                continue;
-            }
-            t[k] = v0;
-            if good(&t) {
-                return format!("-arg{}", k);
+            let d = &jobs[cj[i]].dims[k];
+            let step = (d.len() / 64).max(1);
+            for v in d.iter().step_by(step) {
+                if *v == o[k] {
+                    continue;
+                }
+                t[k] = *v;
+                if good(&t) {
+                    return format!("-arg{}", k);
+                }
             }
             t[k] = o[k];
         }
@@ -816,12 +831,11 @@ fn process_chunk(cfg: &Cfg, jobs: &[Job], segs: &[Seg], tid: usize, shared: &Mut
                 }
                 Some(AsmRes::Err(_)) => st.refused += 1,
                 Some(AsmRes::Enc(w, _, _)) => {
-                    if has_special(m, ops(i)) {
-                        st.api_restricted += 1;
-                    } else {
-                        let b = blame(i, &|t: &[i64]| catch_unwind(AssertUnwindSafe(|| (m.call)(t))).is_ok());
-                        findings.push((format!("c08:{}:refuses-encodable{}", m.name, b), mk(i, format!("{:08x}", w))));
-                    }
+                    // The assembler refuses (asserts on) an operand tuple that the ISA could encode: its API is
+                    // narrower than the ISA. The property forbids silent truncation, not refusal, so this is
+                    // counted in the evidence and is not a violation.
+                    let _ = w;
+                    st.api_restricted += 1;
                 }
             },
             Out::Word(w) => {
@@ -930,12 +944,12 @@ fn process_chunk(cfg: &Cfg, jobs: &[Job], segs: &[Seg], tid: usize, shared: &Mut
     tp = prof(4, tp);
     // round trip: re-assemble the disassembly of every valid word
     let mut rt_asm = 0u64;
-    if cfg.roundtrip && !words.is_empty() {
+    if !words.is_empty() {
         let mut t = String::new();
         let mut ridx = Vec::new();
         for (k, d) in dis.iter().enumerate() {
             if let DisRes::Text(s, undef) = d {
-                if !*undef {
+                if !*undef && jobs[cj[widx[k]]].roundtrip {
                     t.push_str(s);
                     t.push('\n');
                     ridx.push(k);
@@ -1203,9 +1217,9 @@ fn main() {
         let declared: u64 = jobs.iter().filter(|j| j.method == i).map(|j| j.total).sum();
         let _ = write!(
             o,
-            "{}:{{\"kind\":{},\"declared\":{},\"cases\":{},\"emitted\":{},\"refused\":{},\"refused_zr_sp\":{},\"api_restricted\":{},\"equal\":{},\"equivalent\":{},\"unpredictable\":{},\"nontrivial\":{},\"roundtrip_ok\":{},\"roundtrip_unpredictable\":{},\"roundtrip_diff\":{},\"skipped\":{},\"baseline\":{},\"first\":{},\"nontrivial_ex\":{},\"roundtrip_ex\":{},\"equivalent_ex\":{}}}",
+            "{}:{{\"kind\":{},\"declared\":{},\"cases\":{},\"emitted\":{},\"refused\":{},\"refused_zr_sp\":{},\"api_restricted\":{},\"equal\":{},\"equivalent\":{},\"unpredictable\":{},\"nontrivial\":{},\"roundtrip_ok\":{},\"roundtrip_unpredictable\":{},\"roundtrip_diff\":{},\"skipped\":{},\"dups\":{},\"baseline\":{},\"first\":{},\"nontrivial_ex\":{},\"roundtrip_ex\":{},\"equivalent_ex\":{}}}",
             jstr(m.name), m.kind, declared, t.cases, t.emitted, t.refused, t.refused_zr_sp, t.api_restricted, t.equal, t.equivalent,
-            t.unpredictable, t.nontrivial, t.roundtrip_ok, t.roundtrip_unpredictable, t.roundtrip_diff, t.skipped,
+            t.unpredictable, t.nontrivial, t.roundtrip_ok, t.roundtrip_unpredictable, t.roundtrip_diff, t.skipped, t.dups,
             match t.baseline { Some(w) => format!("\"{:08x}\"", w), None => "null".to_string() },
             jopt(&t.first), jopt(&t.nontrivial_ex), jopt(&t.roundtrip_ex), jopt(&t.equivalent_ex)
         );
